@@ -36,5 +36,6 @@ InitSeeded ==
     /\ lastAct = <<"seed", i>> /\ lastRes = "none"
 \* the memo is the definition for every block (in VersionBits this is inductive over Mine)
 Stutter == UNCHANGED vars
+ShiftAll == \A b \in Prevs, d \in {7, 100000} : Bip9Shifted(b, d) = st[b + 1]
 MemoAll == \A b \in Prevs : st[b + 1] = Bip9(b) /\ snc[b + 1] = SinceBip9(b)
 ====
